@@ -16,7 +16,8 @@ RULE = ('(i) EXHAUSTIVE: every byte string of length 0..3 over a 28-octet struct
         '(ii) Hypothesis: reference encodings of values from U damaged by bit flips, insertions, deletions, duplications, '
         'truncation, splices, identifier and length rewrites (incl. absurd lengths), and raw random octets; (iii) thorough tier: '
         'two coverage-guided atheris campaigns (empty corpus, corpus of reference encodings). Each input x {BER, CER, DER} x '
-        '{one-shot on bytes, StreamingDecoder on a closed seekable stream double that counts reads} x guiding type in {none, the '
+        '{one-shot on bytes, StreamingDecoder on a closed seekable stream double that counts reads, StreamingDecoder on a '
+        'non-blocking non-seekable source that delivers the input in two bursts with an idle poll in between (a few split points)} x guiding type in {none, the '
         'type of the seed encoding, a neighbour type, fixed types}. Inputs nested deeper than 24 levels are outside the property '
         'and skipped. Oracle: the call ends with reads <= 8*(|b|+1)+16 and either returns an Asn1Item that is a value (not None, '
         'not a placeholder) plus bytes, or raises a PyAsn1Error; everything else is a violation bucketed by (exception type, '
@@ -118,6 +119,45 @@ def one(b, codec, mode, spec):
     return None
 
 
+def trickle(b, codec, spec):
+    """The input arrives on a non-blocking, non-seekable source in two bursts with an idle poll in between, for a few split
+    points; then the source closes. -> None | (kind, sig, message)"""
+    n = len(b)
+    for k in sorted(set(x for x in (1, 2, n // 2, n - 1) if 0 < x < n)):
+        st = streams.PipeFeed()
+        st.feed_bytes(b[:k])
+        bound = 8 * (n + 1) + 32
+        items, polls, fed = [], 0, False
+        try:
+            it = iter(lib.DEC[codec].StreamingDecoder(st, asn1Spec=spec) if spec is not None else lib.DEC[codec].StreamingDecoder(st))
+            steps = 0
+            while True:
+                steps += 1
+                if steps > bound:
+                    return ('no-termination', '', 'more than %d steps on a %d-octet stream split at %d' % (bound, n, k))
+                try:
+                    x = next(it)
+                except StopIteration:
+                    break
+                if isinstance(x, error.SubstrateUnderrunError):
+                    polls += 1
+                    if not fed and polls >= 2:
+                        st.feed_bytes(b[k:])
+                        st.finish()
+                        fed = True
+                    continue
+                items.append(x)
+        except error.PyAsn1Error:
+            pass
+        except Exception as ex:
+            return ('leak', harness.exc_sig(ex), 'leak %s: %s (split at %d)' % (harness.exc_sig(ex), str(ex)[:120], k))
+        for x in items:
+            why = judge(x, b'')
+            if why:
+                return ('bad-value', why.split(' ')[1], why + ' (split at %d)' % k)
+    return None
+
+
 def run_input(b, specs, col=None, label='', nontriv_hint=True):
     """specs: list of (name, schema or None, IR type or None). -> failures"""
     fails = []
@@ -137,8 +177,10 @@ def run_input(b, specs, col=None, label='', nontriv_hint=True):
             except Exception:
                 pass
         for codec in CODECS:
-            for mode in ('oneshot', 'stream'):
-                r = one(b, codec, mode, spec)
+            for mode in ('oneshot', 'stream', 'trickle'):
+                if mode == 'trickle' and len(b) < 2:
+                    continue
+                r = trickle(b, codec, spec) if mode == 'trickle' else one(b, codec, mode, spec)
                 if col is not None:
                     col.case(b + ('|%s|%s|%s' % (codec, mode, sname)).encode(), len(b) >= 2 and not valid,
                              ['decoder:' + codec, mode, 'spec:' + sname.split(':')[0], label, 'len=%d' % min(len(b), 8)],
